@@ -5,7 +5,8 @@
 (*                                                                         *)
 (*  kind "M" (point_within_gca):  id, K, a, b, pidx (lattice indices of    *)
 (*      the query points, VecOfIndex), r[v][j] = answer of variant v on    *)
-(*      point j: 0 False, 1 True, 2 raised.                                *)
+(*      point j: 0 False, 1 True, 2 raised; t[j] = answer for point j      *)
+(*      tilted 2e-6 rad out of the plane of the arc (must be False).       *)
 (*  kind "X" (gca_gca_intersection): id, a, b, o[j] = <<c, d>>,            *)
 (*      r[j][v] = <<n, t1, t2>>: n points returned (-1: raised), t = 1 if  *)
 (*      the point is (to 1e-10) the direction +x, 2 if -x, 0 if neither,   *)
@@ -37,6 +38,7 @@ NBlocks == (Len(Recs) + Block - 1) \div Block
 VARIABLE i      \* < 0: block marker, > 0: record index
 
 Has(r, f) == f \in DOMAIN r
+TiltVariant == 9
 Range(s)  == { s[k] : k \in DOMAIN s }
 Vec3(s)   == << s[1], s[2], s[3] >>
 ValidArc(a, b) == Judgeable(a) /\ Judgeable(b) /\ IsArc(a, b) /\ ArcMargin(a, b)
@@ -53,6 +55,10 @@ MFails(r, j) ==
                  v \in { w \in 1..nv : got(w) # 2 /\ got(w) # want } }
        \cup (IF \E v \in 2..(nv - 1) : got(v) # got(1) THEN { <<"Invariance", 0>> } ELSE {})
        \cup (IF got(nv) # got(1) THEN { <<"Invariance", nv>> } ELSE {})
+       \* r.t[j]: the same query point tilted out of the arc's plane by TiltRad (2e-6 rad, twice the
+       \* property's margin; every judged lattice point is >= 1e-4 rad from any other boundary): it is
+       \* off the great circle with margin, whatever its class was
+       \cup (IF Has(r, "t") /\ r.t[j] # 0 THEN { <<"NearCircleRejected", TiltVariant>> } ELSE {})
 MJudged(r, j) == LET p == VecOfIndex(r.pidx[j], r.K)
                  IN Judgeable(p) /\ TripleJudged(Vec3(r.a), Vec3(r.b), p)
 JudgeM(r) ==
